@@ -129,6 +129,12 @@ OnStep(r, ev) ==
      /\ IF ok \/ dev # "" \/ (\E x \in alts : OutMatch(evx, x)) THEN TRUE
         ELSE V("control", <<"the interpreter answered", ev.out, ev.arg, ev.err, "for", ev.line, "at index", ev.idx,
                             "the specification allows", UNION {x.outs : x \in alts}>>)
+     \* ... and so are the return locations kept for the procedures that are running (C08): a call stack that no alternative
+     \* of the model leaves is reported under `control` too -- the return that uses it would otherwise look right, because
+     \* the state is resynchronised to what was logged (seeded change C08-q: return location masked to 16 bits)
+     /\ IF ok \/ dev # "" \/ (\E x \in alts : x.stack = ev.stack) THEN TRUE
+        ELSE V("control", <<"the call stack after", ev.line, "at index", ev.idx, "is", ev.stack,
+                            "the specification allows", {x.stack : x \in alts}>>)
      \* printing and the prompt never change the machine (C17, C20): a step that does not start from the state the
      \* previous step left, directly after a print statement or a prompt command, is theirs
      /\ IF ok \/ dev # "" \/ l = 1 THEN TRUE
